@@ -66,16 +66,13 @@ Ans(fs, q) ==
 (* get_size of a directory is not judged, a read below a regular file may    *)
 (* answer NotADirectoryError (the OS's own answer on a from-scratch tree).   *)
 BelowFile(fs, p) == \E a \in ProperAnc(p) : IsFile(fs, a)
-(* Directories that exist only to hold the cache file: when they become visible is not pinned by the    *)
-(* contract (C04), so queries on them, and listings / walks that would show them, are not judged, and   *)
-(* records containing such queries are judged in neither direction (fuzzy).                              *)
+(* The ancestor directories of the cache file are made before the build function starts and are      *)
+(* reserved for the whole build (repair D30): in the virtual view they are directories from the      *)
+(* first query on, in the build that creates them and in every later one.                            *)
 CacheDirs == ProperAnc(CachePath) \ {Root}
-TouchesCacheDirs(q) ==
-  \E c \in CacheDirs : IsPrefix(c, q.p) \/ (q.kind \in {"list_dir", "walk"} /\ IsPrefix(q.p, c))
 AnsMatches(fs, q, res) ==
   LET a == Ans(fs, q) IN
-  IF TouchesCacheDirs(q) THEN TRUE
-  ELSE IF ~a.ok THEN
+  IF ~a.ok THEN
       ~res.ok /\ (res.err = a.err \/
                   (q.kind = "read" /\ BelowFile(fs, q.p) /\ res.err = "NotADirectoryError"))
   ELSE res.ok /\
@@ -162,7 +159,7 @@ RECURSIVE ReplayOp(_, _, _)
 ReplayOp(s, op, S) ==
   IF ~S.ok THEN S
   ELSE IF op.k = "q" THEN
-    IF op.ans.dirsize \/ TouchesCacheDirs(op.q) THEN [S EXCEPT !.fuzzy = TRUE]
+    IF op.ans.dirsize THEN [S EXCEPT !.fuzzy = TRUE]
     ELSE [S EXCEPT !.ok = (Ans(View(S.bfs, S.live, S.outs), op.q) = op.ans)]
   ELSE IF op.k = "bf" THEN
     LET fs == View(S.bfs, S.live, S.outs)
@@ -302,8 +299,13 @@ CheckRootBegin(s, e) ==
   ELSE IF e.recv # e.sent THEN "RootArgsPassed"     \* type-exact renderings of what build() was given / the function got
   ELSE ""
 
+(* An injected OSError behind a read-only call of a query (listdir, stat, getsize, open for reading):  *)
+(* the query raises it, nothing else changes - the view afterwards is the view before, the directories *)
+(* of the previous build are still gone, and the record holding the failed query is never reused.      *)
+QFault(e) == "fault" \in DOMAIN e /\ e.fault
 CheckQ(s, e) ==
   IF ~InFrame(s) THEN "H:query-outside-frame"
+  ELSE IF QFault(e) THEN (IF e.res.ok \/ e.res.err # "OSError" THEN "FaultSurfaces" ELSE "")
   ELSE IF ~AnsMatches(SView(s), e, e.res) THEN "AnswerMatches"
   ELSE ""
 
@@ -535,14 +537,15 @@ ApplyBuild(s, e) ==
 
 ApplyRootBegin(s, e) ==
   LET v0 == FromScratch(s.disk, s.rec) IN
-  [s EXCEPT !.ph = "build", !.pre = s.disk, !.bfs = v0, !.v0dirs = Dirs(v0), !.live = {},
+  [s EXCEPT !.ph = "build", !.pre = s.disk, !.bfs = AddDirs(v0, CacheDirs), !.v0dirs = Dirs(v0), !.live = {},
             !.outs = EmptyFs, !.claimedF = {}, !.claimedS = {},
             !.stack = <<Frame("root", <<>>, "", TList(<<>>), TDict(<<>>), "")>>,
             !.pend = NoPend, !.targets = {}, !.reused = {}, !.kfdirs = {}, !.gone = {}]
 
 ApplyQ(s, e) ==
   PushSub([s EXCEPT !.st.q = @ + 1],
-          QRec([kind |-> e.kind, p |-> e.p, cmp |-> e.cmp, td |-> e.td], Ans(SView(s), e)))
+          QRec([kind |-> e.kind, p |-> e.p, cmp |-> e.cmp, td |-> e.td],
+               IF QFault(e) THEN Err("OSError") ELSE Ans(SView(s), e)))
 
 ApplyBegin(s, e) ==
   IF e.ev = "bf_begin" THEN
